@@ -22,6 +22,10 @@ impl<R: BufRead> Base64Reader<R> {
 
 impl<R: BufRead> Read for Base64Reader<R> {
     fn read(&mut self, into: &mut [u8]) -> io::Result<usize> {
+        if into.is_empty() {
+            return Ok(0);
+        }
+
         let mut buf = self.inner.fill_buf()?;
         if buf.is_empty() {
             return Ok(0);
